@@ -20,7 +20,7 @@ def nontrivial(impl):
     return sum(1 for l in impl if l.startswith("H ") and " res=" in l) >= 2
 
 CHECK = ScenarioCheck("C14", ["SimVerif.Props.C14"], "kernel", gen.generate, spec_c14, nontrivial,
-    "sequences of async_resolve (host names with latency alphabet {0, 500 ns, 1 us, 50 ms, 100 ms}, ok/error/empty/multi results, IPv4/IPv6 literals, ports incl. 0 and 65535) and cancel() issued at top level, from handlers and at timer-chosen virtual times on 1-2 tcp/udp resolvers; exhaustive short sequences over a small alphabet plus random longer ones; non-trivial = >= 2 lookup completions; distinct = distinct implementation trace",
+    "sequences of async_resolve (host names with latency alphabet {0, 500 ns, 1 us, 50 ms, 100 ms} in the exhaustive parts and a per-scenario random dns table in two thirds of the random programs: latency 0 ns-3 s incl. 1/499/999/1001/7777 ns and 49.999999 ms, any error with 0-4 addresses; ok/error/empty/multi results, IPv4/IPv6 literals, ports incl. 0 and 65535) and cancel() issued at top level, from handlers and at timer-chosen virtual times on 1-2 tcp/udp resolvers; resolver objects destroyed with lookups pending (top level, timer handlers, step-hook boundaries) and replaced; exhaustive short sequences over a small alphabet plus random longer ones; non-trivial = >= 2 lookup completions; distinct = distinct implementation trace",
     TRUSTED, ASSUME, spec_scn=True)
 
 def run(tier, seed, replay):
